@@ -106,4 +106,19 @@ class Driver(Device, metaclass=DriverMeta):
                     self.send_message(v.to_def_message())
 
         if isinstance(msg, message.news.NewVector):
-            self._vectors[msg.name].from_new_message(msg)
+            vector = self._vectors.get(msg.name)
+            if vector is None:
+                logger.warning(
+                    "Driver %s: new value for unknown property %s", self.name, msg.name
+                )
+                return
+            try:
+                vector.from_new_message(msg)
+            except Exception:
+                # a value that cannot be applied must not take the connection
+                # (or the server) down
+                logger.exception(
+                    "Driver %s: cannot apply new value for property %s",
+                    self.name,
+                    msg.name,
+                )
